@@ -83,6 +83,7 @@ pub const FRAGMENTS: &[&[u8]] = &[
     b"<![CDATA[]]]>", b"<![CDATA[]>]]>", b"<![CDATA[]]]]]>", b"<![CDATA[>]]]>", b"<!--->-->", b"<!---->-->", b"<!-- -- -->", b"<!--a-b-c-->", b"<?p ? ?>", b"<?p ?>x?>", b"<!DOCTYPE r [<!ELEMENT r (a|<b <c>>)>]>", b"<!DOCTYPE r [<<>><>]>", b"<!DOCTYPE\tr>", b"<!DOCTYPE\nr >",
     b"<!DoCtYpE r>", b"<a/ >", b"<a //>", b"<a/b/>", b"</a/>", b"< a>", b"<a k=v/>",
     b"\x0c", b"\x0b", b" \x0c", b"\x0c ", b"\n\x0c\n", b"\xc2\xa0", b"\xc2\x85", b"\xe2\x80\xa8", b"\x00", b"\x1f", b"\x85", b"\xa0", b" \xc2\xa0x\xc2\xa0 ", b"<a\x0c>", b"</a\x0c>", b"<a\x0ck='v'/>", b"<?pi\x0cx?>", b"<?xml\x0c?>",
+    b"<caf\xe9>", b"</caf\xe9>", b"</cafe>", b"</\xff>", b"<\xff\xfe k='v'>",
     b"<p:a xmlns:p=\"&amp;\">", b"<a xmlns=\"&#38;x\">", b"<p:b xmlns:p='a&lt;b' p:k='v'/>", b"</p:a>",
     b"\xef\xbc\xa1", b"\xef\xbb\x81", b"\xef\xbb", b"\xef", b"\xfe", b"\xff\xfd",
     b"<?XML?>", b"<?Xml version='1.0'?>", b"<?xML ?>", b"XML", b"Xml", b"<?XML-x?>", b"<!doctype>", b"<![cdata[x]]>", b"<!ELEMENT r>",
